@@ -571,7 +571,7 @@ def c04(ctx):
     ctx.assumptions = APPLIER_ASSUME[:1] + [
         "Parser.GetCommitment reports nothing for create and the recovery commitment for recover; the links "
         "create->update, create->recover and recover->update take the predecessor's commitment from its parsed model"]
-    kts = ",".join(kts_for(ctx, 2) if ctx.tier == "quick" else KTS)
+    kts = ",".join(KTS)
     ml = 6 if ctx.tier == "quick" else 8
     for alg in (256, 512):
         _, summ = ctx.tlc_pipe("MC_Chain.tla", "MC_Chain.cfg", ["chain-replay", "-kts", kts],
